@@ -349,6 +349,10 @@ class Executor:
             ft = self.reg.fields.get(c, {}).get(fname)
             if ft is not None:
                 return self.tenv.parse(ft)
+        # a field of a sibling / unrelated class reached through a guarded (isa) access in a spec: unique by name
+        cands = {c: d[fname] for c, d in self.reg.fields.items() if fname in d}
+        if len(set(cands.values())) == 1:
+            return self.tenv.parse(next(iter(cands.values())))
         raise VCError(f'field {cname}.{fname} has no declared type (declare_fields)')
 
     def coerce(self, sv, ty, what='value'):
